@@ -524,22 +524,26 @@ def run_cases(ctx, elk, h, m, cases, tag, max_calls):
                       "impl-wider" if all(r_ or not m_ for r_, m_ in zip(R, M)) else "incomparable"
                 status[k] = ("other", rel)
                 st["static_other"] += 1
-        # report static divergences at their origin: the outermost enclosing branch whose probe of the same local diverges
+        # report static divergences at their origin: the outermost enclosing branch whose probe of the same local
+        # diverges in the same way; the key names the narrowing atoms narrowCondition applies there
         reported = set()
-        for k, (var, path) in paths.items():
-            kind, rel = status[k]
+        for k, (var, path) in list(paths.items()):
+            kind, rel = status[k][0], status[k][1]
             if kind == "ok":
+                cond, pos = path[-1] if path else (None, True)
+                status[k] = (kind, rel, (",".join(sorted(set(active_atoms(cond, pos, var)))) if cond else "declared") or "none")
                 continue
             origin_k, origin_path = k, path
             for k2, (var2, path2) in paths.items():
-                if var2 == var and status[k2][0] != "ok" and len(path2) < len(origin_path) and path2 == path[:len(path2)]:
+                if var2 == var and status[k2][0] == kind and len(path2) < len(origin_path) and path2 == path[:len(path2)]:
                     origin_k, origin_path = k2, path2
+            cond, pos = origin_path[-1] if origin_path else (None, True)
+            atoms = (",".join(sorted(set(active_atoms(cond, pos, var)))) if cond else "declared") or "none"
+            status[k] = (kind, status[origin_k][1], atoms)
             if origin_k in reported:
                 continue
             reported.add(origin_k)
-            kind, rel = status[origin_k]
-            cond, pos = origin_path[-1] if origin_path else (None, True)
-            atoms = ",".join(sorted(set(active_atoms(cond, pos, var)))) if cond else "declared"
+            rel = status[origin_k][1]
             diff = [sx_str(u) for j, u in enumerate(uni) if vset(origin_k, "r")[j] != vset(origin_k, "m")[j]]
             what = ("probe P%s of v%s: the checker's static type %s and the model's %s differ on the values %s\n%s"
                     % (origin_k, var, sx_str(rtypes[origin_k]), sx_str(mfixed[origin_k]), " ".join(diff), p.source({}, [])))
@@ -547,7 +551,7 @@ def run_cases(ctx, elk, h, m, cases, tag, max_calls):
                 ctx.fail(KNOWN_STATIC, what, stream=CLS, case=inp, impl=sx_str(rtypes[origin_k]), model=sx_str(mfixed[origin_k]),
                          oracle="value set of the checker's narrowed type = value set of the proved narrowing rule")
             else:
-                ctx.fail("cls-static:%s:%s" % (atoms or "none", rel), what, stream=CLS, case=inp, impl=sx_str(rtypes[origin_k]),
+                ctx.fail("cls-static:%s:%s" % (atoms, rel), what, stream=CLS, case=inp, impl=sx_str(rtypes[origin_k]),
                          model=sx_str(mfixed[origin_k]),
                          oracle="value set of the checker's narrowed type = value set of the proved narrowing rule")
         # argument tuples
@@ -656,11 +660,9 @@ def run_cases(ctx, elk, h, m, cases, tag, max_calls):
                 mem_q.append((qid, "(kmem %s %s %s)" % (sx_str(case[0]), sx_str(rtypes[k]), sx_str(v))))
                 pending.append((qid, cid, inp, src, j, k, v, cn, nm, rtypes[k], status[k], paths[k], sans.get("%s.r.%s" % (cid, v[1])) if v != "n" else None))
     rc, mans, mout = vlib.run_model(m, [q[0] for q in mem_q], dict(mem_q))
-    for qid, cid, inp, src, j, k, v, cn, nm, rt, (kind, rel), (var, path), resolved in pending:
+    for qid, cid, inp, src, j, k, v, cn, nm, rt, (kind, rel, atoms), (var, path), resolved in pending:
         a = mans.get(qid)
         st["member_checks"] += 1
-        cond, pos = path[-1] if path else (None, True)
-        atoms = (",".join(sorted(set(active_atoms(cond, pos, var)))) if cond else "declared") or "none"
         if a not in ("in", "out"):
             ctx.broke("correspondence %s: membership query failed (%s)" % (CLS, a))
             continue
@@ -697,7 +699,7 @@ def run_stream(ctx, elk, h, m):
     corpus = load_corpus(os.path.join(vlib.ROOT, "corpus", "C02.cls.txt"))
     fam = [("cd%d" % i, c, "directed") for i, c in enumerate(directed_family())]
     gen, dist = [], {}
-    for i in range(ctx.n(40, 3000)):
+    for i in range(ctx.n(40, 1500)):
         g = Gen(rng)
         c = g.case()
         for k, v in g.dist.items():
